@@ -490,6 +490,7 @@ class Engine:
         self._byte_facts = set()
         self._isolver = None
         self._isolver_ids = []
+        self._abs = None
         self._known_cache = {}
         self._known_sig = {}
         self.segments = {}  # ostream id -> [(producer, appended segment)] in program order on this path
@@ -801,7 +802,9 @@ class Engine:
 
     def prove_now(self, f, timeout_ms=2000):
         """quick internal entailment check PC |= f (used for engine-internal simplifications only).
-        Uses one incremental solver per path that mirrors the path condition (push/pop per assertion)."""
+        Decided on the EUF+LIA abstraction of the sequence theory (pyvc.seqabs): `unsat` there is sound for the
+        real theory, a `sat`/`unknown` answer just means "not known".  One incremental solver per path; every
+        path-condition entry is guarded by an indicator literal and selected through check-assumptions."""
         f = V.simplify_bool(f)
         if isinstance(f, bool):
             return f
@@ -810,18 +813,53 @@ class Engine:
         hit = self._known_cache.get(key)
         if hit is not None and hit[0] <= len(self.pc) and self._pc_hash(hit[0]) == hit[1]:
             return True  # proved under a path condition that is still a prefix of the current one
-        s = self._sync_isolver()
-        s.set("timeout", timeout_ms)
-        s.push()
-        s.add(z3.Not(f.t))
-        r = s.check()
-        s.pop()
         self.stats["branch_checks"] += 1
-        if r == z3.unsat:
+        r = self._abs_entails(f.t, timeout_ms)
+        if r:
             n = len(self.pc)
             self._known_cache[key] = (n, self._pc_hash(n))
             return True
         return False
+
+    def _abs_entails(self, goal, timeout_ms):
+        from .seqabs import Abstractor, Unsupported
+
+        if self._abs is None:
+            self._abs = Abstractor()
+            self._abs._extract_info = {}
+            self._abs._cat_info = {}
+            self._abs_solver = z3.Solver()
+            self._abs_lits = {}
+            self._abs_nax = 0
+            self._abs_bad = set()
+        ab, s = self._abs, self._abs_solver
+        lits = []
+        try:
+            for t in self.pc:
+                i = t.get_id()
+                if i in self._abs_bad:
+                    continue
+                p = self._abs_lits.get(i)
+                if p is None:
+                    try:
+                        tt = ab.tr(t)
+                    except (Unsupported, z3.Z3Exception, RecursionError):
+                        self._abs_bad.add(i)  # hypothesis dropped (sound)
+                        continue
+                    p = z3.Bool("pc!%d" % i)
+                    s.add(z3.Implies(p, tt))
+                    self._abs_lits[i] = p
+                lits.append(p)
+            g = ab.tr(goal)
+        except (Unsupported, z3.Z3Exception, RecursionError):
+            return False
+        q = z3.Bool("goal!%d" % goal.get_id())
+        s.add(z3.Implies(q, z3.Not(g)))
+        for a in ab.axioms[self._abs_nax:]:
+            s.add(a)
+        self._abs_nax = len(ab.axioms)
+        s.set("timeout", min(timeout_ms, 50))
+        return s.check(*(lits + [q])) == z3.unsat
 
     def _pc_hash(self, n):
         return hash(tuple(t.get_id() for t in self.pc[:n]))
@@ -1251,9 +1289,11 @@ class Engine:
         for a in list(bound.values()):
             if isinstance(a, Ref) and self.kind(a) == "ostream":
                 before[a.id] = self.heap[a.id]["out"]
+            elif isinstance(a, Ref) and self.kind(a) == "stream":
+                before[a.id] = self.heap[a.id]["data"]
         ct.apply_modifies(ctx, bound)
         for oid, prev in before.items():
-            cur = self.heap[oid]["out"]
+            cur = self.heap[oid]["out"] if self.heap[oid]["kind"] == "ostream" else self.heap[oid]["data"]
             if cur is not prev:
                 seg = V.strip_prefix(cur, prev)
                 if seg is not None:
